@@ -227,6 +227,35 @@ URLIZE_TRIM = ["u|urlize(5)", "u|urlize(200)", "u|urlize(trim_url_limit=200, nof
 URLS = ["http://a.com/p?x=<m1>&y=\"q\"'r'", "https://b.org/<m2>/'x'?a=1&b=\"2\"", "www.c.net/a'b\"c<d>e&f"]
 
 
+class LazyStr:
+    """an object that is not a str and has no __html__; its str() is data"""
+
+    def __init__(self, s):
+        self.s = s
+
+    def __str__(self):
+        return self.s
+
+
+# filters that stringify a non-string value or argument into markup: containers / objects built from the marker data
+NONSTR = [
+    ("attrs", "xmlattr", "{'data-tags': [x]}|xmlattr"), ("attrs", "xmlattr", "{'a': (x, y)}|xmlattr"), ("attrs", "xmlattr", "{'a': {x: y}}|xmlattr"),
+    ("attrs", "xmlattr", "{'a': x.split()}|xmlattr"), ("attrs", "xmlattr", "{'a': o}|xmlattr"), ("attrs", "xmlattr", "{'a': [o, x]|list}|xmlattr"),
+    ("attrs", "xmlattr", "{'a': 1.5, 'b': true, 'c': [1, x]}|xmlattr"), ("attrs", "xmlattr", "{'a': [x]|unique|list, 'b': (x,)}|xmlattr(false)"),
+    ("attrs", "xmlattr", "{'a': x|list}|xmlattr"), ("attrs", "xmlattr", "dict(a=[y], b=o)|xmlattr"), ("attrs", "xmlattr", "{'a': [[x]], 'b': none}|xmlattr"),
+    ("shape", "urlize", "u|urlize(target=[x])"), ("shape", "urlize", "u|urlize(40, true, o)"), ("shape", "urlize", "u|urlize(target=(x, y))"),
+    ("shape", "urlize", "o|urlize"), ("shape", "urlize", "[u]|urlize"), ("shape", "urlize", "u|urlize(target={x: y})"),
+    ("mfree", "expr", "[[x], [y]]|join(w)"), ("mfree", "expr", "[[x], m]|join(w)"), ("mfree", "expr", "[o, m]|join(o)"), ("mfree", "expr", "[(x, y), m]|join"),
+    ("mfree", "expr", "'%s'|format([x])"), ("mfree", "expr", "mf|format([x])"), ("mfree", "expr", "mf % [x]"), ("mfree", "expr", "mf|format(o)"),
+    ("mfree", "expr", "mf|format({x: y})"), ("mfree", "expr", "mb.format([x], k=(y,))"), ("mfree", "expr", "mb.format(o, k=o)"),
+    ("mfree", "expr", "m|replace(' ', [x])"), ("mfree", "expr", "m|replace(' ', o)"), ("mfree", "expr", "m|replace(' ', x, n)"), ("mfree", "expr", "m|replace(' ', x, 1)"),
+    ("mfree", "expr", "m|indent(o, true)"), ("mfree", "expr", "m|truncate(5, true, o, 0)") , ("mfree", "expr", "m|wordwrap(3, true, o)"), ("mfree", "expr", "m ~ [x]"),
+    ("mfree", "expr", "m + o|string"), ("mfree", "expr", "m.join([[x], o])"), ("mfree", "expr", "[x]|string|e"), ("mfree", "expr", "o"), ("mfree", "expr", "[o]"),
+    ("mfree", "expr", "o|e"), ("mfree", "expr", "o|forceescape"), ("mfree", "expr", "o|upper"), ("mfree", "expr", "o|center(30)"), ("mfree", "expr", "o|default(x)"),
+    ("mfree", "expr", "o|trim"), ("mfree", "expr", "o|title"), ("mfree", "expr", "o|striptags"), ("mfree", "expr", "o|string ~ m"), ("mfree", "expr", "o|list|join(m)"),
+]
+
+
 def run_scan(ctx, res, jinja2):
     """all built-in filters x receivers x argument shapes, methods and operators; data-controlled everywhere"""
     rng = ctx.rng("scan")
@@ -247,6 +276,7 @@ def run_scan(ctx, res, jinja2):
         srcs.append(("mfree", "expr", mexpr))
     for uexpr in URLIZE_TRIM:
         srcs.append(("shape", "urlize", uexpr))
+    srcs += NONSTR
     basic = lambda e: e[2].count("|") == 1 and "(" not in e[2].split("|")[1]  # noqa: E731  receiver|filter, no arguments
     keep = [s for s in srcs if s[1] == "expr" or s[0] != "mfree" or basic(s)]
     rest = [s for s in srcs if not (s[1] == "expr" or s[0] != "mfree" or basic(s))]
@@ -255,7 +285,8 @@ def run_scan(ctx, res, jinja2):
     datasets = []
     for _ in range(ctx.pick(1, 2)):
         datasets.append({"x": rng.choice(DATA[:1] + DATA[2:4] + DATA[6:]), "y": rng.choice(["\"m2'", "<y1>", "' y2=\"<"]),
-                         "w": rng.choice(["<w>", "\"'", ">w<"]), "n": 3, "u": rng.choice(URLS)})
+                         "w": rng.choice(["<w>", "\"'", ">w<"]), "n": 3, "u": rng.choice(URLS),
+                         "o": LazyStr(rng.choice(["<o1>", "\" onmouseover=\"o2", "'o3'>"]))})
     reqs, jobs = [], []
     renders = raised = 0
     per_filter_ok = {}
@@ -296,8 +327,8 @@ def run_scan(ctx, res, jinja2):
     for (mode, f, expr, data, out, oracle), rep in zip(jobs, core.driver_batch(reqs)):
         if rep[1] is not True:
             key = f"C15:leak:filter:{f}" if f != "expr" else "C15:leak:expr:" + expr[:40]
-            res.violate(key, f"{{{{ {expr} }}}} with {data} under {mode} autoescape renders {out!r}: raw markup character from data "
-                        f"(oracle {oracle})", {"expr": expr, "data": data, "mode": mode, "out": out})
+            res.violate(key, f"{{{{ {expr} }}}} with {dict(data, o=str(data['o']))} under {mode} autoescape renders {out!r}: raw markup character from data "
+                        f"(oracle {oracle})", {"expr": expr, "data": dict(data, o=str(data["o"])), "mode": mode, "out": out})
     never = [f for f in filters if f != "safe" and not per_filter_ok.get(f)]
     if never:
         raise core.HarnessError(f"scan never rendered these filters successfully: {never}")
@@ -305,7 +336,7 @@ def run_scan(ctx, res, jinja2):
                                                  "urlize", "xmlattr", "tojson", "safe")]
     return {"renders": renders, "raised": raised, "nontrivial": len(nontrivial), "expressions": total_expressions, "sampled_per_configuration": len(keep) + min(len(rest), ctx.pick(3500, 15000)), "filters": len(filters),
             "modes": modes, "renders_per_filter_min": min(per_filter_ok.values()), "scan_only": scan_only,
-            "samples": [{"expr": rest[7][2], "data": datasets[0]}, {"expr": METHODS[20], "data": datasets[0]}]}
+            "samples": [{"expr": rest[7][2], "data": dict(datasets[0], o=str(datasets[0]["o"]))}, {"expr": NONSTR[0][2], "data": dict(datasets[0], o=str(datasets[0]["o"]))}]}
 
 
 def run_select(ctx, res, jinja2):
@@ -559,7 +590,7 @@ def replay(ctx, case):
         wrap = WRAP[mode] or ("", "")
         src = wrap[0] + "{% set m %}a b\nc d e{% endset %}{% set mf %}[%s]{% endset %}{% set mb %}({} {k}){% endset %}{{ " + c["expr"] + " }}" + wrap[1]
         try:
-            return {"src": src, "render": env.from_string(src).render(**dict(c["data"], flag=True))}
+            return {"src": src, "render": env.from_string(src).render(**dict(c["data"], flag=True, o=LazyStr(c["data"].get("o", ""))))}
         except Exception as e:  # noqa
             return {"src": src, "raised": f"{type(e).__name__}: {e}"}
     if "scenario" in c:
